@@ -4,6 +4,6 @@ CONSTANTS
   T10 = 670
   Mode = "cands"
   Fams = {"all", "live", "exact", "short", "self"}
-  Muts = {"none", "dup", "unknown-voter", "wrongkey", "badsig", "claim-missing", "expel-unknown-target", "expel-unknown-signer", "expel-wrongkey-signer", "expired", "dup-expel"}
-INVARIANTS AcceptedImpliesWellFormed
+  Muts = {"none", "dup", "unknown-voter", "wrongkey", "badsig", "claim-missing", "expel-unknown-target", "expel-unknown-signer", "expel-wrongkey-signer", "expired", "dup-expel", "tp-fact-all", "tp-fact-one", "tp-point-all", "tp-point-one", "tp-node-one"}
+INVARIANTS AcceptedImpliesWellFormed HistoryIndependent AcceptedOnlyGenuine
 CHECK_DEADLOCK FALSE
